@@ -371,6 +371,11 @@ def spec_call(self, name, e, st):
                 s.env[k] = v
         s.ghost["__old__"] = None
         return one(e.args[0], s)
+    if name in ("iter_seq", "iter_pos"):
+        v = one(e.args[0])
+        if v.ty != "iter":
+            raise Unsupported(f"{name}() of a non-iterator")
+        return v.py[0] if name == "iter_seq" else Val(v.py[1], "int")
     if name == "at_loop_entry":
         # value of an expression in the state in which the (innermost) loop was entered; bound variables and locals that the loop does
         # not assign keep their current meaning
